@@ -476,6 +476,62 @@ impl<'a> Walker<'a> {
             }
         }
 
+        // the same placement with the other colour to move is a consistent set-up position too
+        // (when nobody is in check and no ep target is pending); the engine itself asks generators
+        // about the side not to move (mate detection after a trial move), so the caches hold
+        // entries of both colours under one key
+        if (on(F01) || on(F02)) && pos.ep.is_none() && !pos.in_check(pos.stm) {
+            let mut flipped = pos.clone();
+            flipped.stm = pos.stm.other();
+            if flipped.is_consistent() {
+                let fl = flipped.legal_moves();
+                let fd: Vec<MoveDesc> = fl.iter().map(describe_model).collect();
+                let oc = color_of(flipped.stm);
+                match guarded(|| l.g.generate_moves(board, oc)) {
+                    Ok(om) => {
+                        l.n.add("other_colour_queries", 1);
+                        let od: Vec<MoveDesc> = om.iter().map(describe_impl).collect();
+                        if sorted(od.clone()) != sorted(fd.clone()) {
+                            let mut bc = board.clone();
+                            l.n.add("brand_new_generator_arbitrations", 1);
+                            let fresh = guarded(|| MoveGenerator::new().generate_moves(&mut bc, oc)).map(|v| v.iter().map(describe_impl).collect::<Vec<_>>());
+                            match fresh {
+                                Ok(fdesc) => {
+                                    if on(F01) {
+                                        for (cls, det) in diff_move_lists(&fdesc, &fd) {
+                                            self.viol("C01", &cls, item, path, format!("{} (brand-new generator asked for the side NOT to move; position {})", det, flipped.to_fen()));
+                                        }
+                                    }
+                                    if on(F02) && sorted(fdesc.clone()) != sorted(od.clone()) {
+                                        self.viol("C02", "moves-differ-from-brand-new-generator", item, path, format!("long-lived generator asked for {:?} (the side not to move) after being asked for the side to move: {:?}; position {}", flipped.stm, diff_move_lists(&od, &fdesc), flipped.to_fen()));
+                                    }
+                                }
+                                Err(p) => {
+                                    if on(F01) {
+                                        self.viol("C01", "panic-in-generate_moves", item, path, format!("brand-new generator, other colour: {}", p));
+                                    }
+                                }
+                            }
+                        }
+                        if on(F04) || on(F12) {
+                            let s = snapshot(board);
+                            if s != snap0 {
+                                self.viol("C04", "query-mutates-board:generate_moves", item, path, snap0.diff(&s));
+                            }
+                        }
+                    }
+                    Err(p) => {
+                        for (fl, pr) in [(F01, "C01"), (F02, "C02")] {
+                            if on(fl) {
+                                self.viol(pr, "panic-in-generate_moves", item, path, format!("other colour: {}", p));
+                            }
+                        }
+                        return Err(());
+                    }
+                }
+            }
+        }
+
         // ---------------- state oracles ----------------
         if on(F12) {
             for (cls, det) in invariants(&snap0) {
@@ -981,3 +1037,107 @@ pub fn fill_report(rep: &mut Report, w: &Walker, n: &Counters) {
         rep.notes.push(format!("wall cap of {} s hit: not every planned work item was explored", w.cfg.wall_cap_s));
     }
 }
+
+/// Deep graph DFS (C04 / C12): depth-first over the canonical state graph of a small position
+/// on ONE live board, so that paths grow to hundreds of plies before backtracking; every undo is
+/// compared with the snapshot taken before the matching apply (a stack of snapshots as long as
+/// the path), invariants are evaluated in every state.  Each canonical state is entered once;
+/// the path length is capped (`max_len`) and the number of states too (`max_states`).
+/// Returns (states, transitions, longest path, undo comparisons).
+pub fn deep_paths(owner: &str, seed_name: &str, fen: &str, max_len: usize, max_states: usize, check_undo: bool, check_inv: bool, sink: &Sink) -> (u64, u64, u64, u64) {
+    let root = Pos::from_fen(fen).unwrap();
+    let mut board = build_board(&root);
+    let mut seen: std::collections::HashSet<CKey> = std::collections::HashSet::new();
+    seen.insert(canon(&root));
+    struct Frame {
+        pos: Pos,
+        moves: Vec<Move>,
+        next: usize,
+        snap: Snap,
+        applied: Option<ChessMove>,
+    }
+    let viol = |prop: &str, class: &str, path: &[Move], detail: String| {
+        if prop == owner {
+            sink.push(Violation { prop: prop.into(), class: class.into(), seed: fen.into(), path: path_uci(path), detail, extra: json!({"seed_name": seed_name, "kind": "deep-path"}) });
+        }
+    };
+    let mut path: Vec<Move> = Vec::new();
+    let first_moves = root.legal_moves();
+    let mut stack: Vec<Frame> = vec![Frame { snap: snapshot(&board), pos: root, moves: first_moves, next: 0, applied: None }];
+    let (mut states, mut trans, mut longest, mut undos) = (1u64, 0u64, 0u64, 0u64);
+    loop {
+        let depth_now = stack.len();
+        let top = match stack.last_mut() {
+            Some(t) => t,
+            None => break,
+        };
+        if top.next < top.moves.len() && depth_now <= max_len && (states as usize) < max_states {
+            let m = top.moves[top.next];
+            top.next += 1;
+            let succ = top.pos.make(&m);
+            if !seen.insert(canon(&succ)) {
+                continue;
+            }
+            let stm = top.pos.stm;
+            let im = impl_move_from_model(&m, stm);
+            match guarded(|| im.apply(&mut board)) {
+                Ok(Ok(())) => {}
+                other => {
+                    viol("C04", "deep-apply-failed", &path, format!("{}: {:?}", uci(&m), other.map(|r| r.map_err(|e| e.to_string()))));
+                    viol("C12", "deep-apply-failed", &path, uci(&m));
+                    return (states, trans, longest, undos);
+                }
+            }
+            board.toggle_turn();
+            trans += 1;
+            states += 1;
+            path.push(m);
+            longest = longest.max(path.len() as u64);
+            let snap = snapshot(&board);
+            if check_inv {
+                for (cls, det) in invariants(&snap) {
+                    viol("C12", cls, &path, format!("{} after {} plies in {}", det, path.len(), succ.to_fen()));
+                }
+                let d = snap.diff_pos(&succ);
+                if !d.is_empty() {
+                    viol("C12", "deep-state-differs-from-model", &path, d);
+                }
+            }
+            let moves = succ.legal_moves();
+            stack.push(Frame { pos: succ, moves, next: 0, snap, applied: Some(im) });
+        } else {
+            // backtrack: undo the move that led here and compare with the parent's snapshot
+            let fr = stack.pop().unwrap();
+            if let Some(im) = fr.applied {
+                board.toggle_turn();
+                match guarded(|| im.undo(&mut board)) {
+                    Ok(Ok(())) => {}
+                    other => {
+                        viol("C04", "deep-undo-failed", &path, format!("{:?}", other.map(|r| r.map_err(|e| e.to_string()))));
+                        return (states, trans, longest, undos);
+                    }
+                }
+                if check_undo {
+                    undos += 1;
+                    let parent = &stack.last().unwrap().snap;
+                    let now = snapshot(&board);
+                    if now != *parent {
+                        viol("C04", "undo-does-not-restore(deep-path)", &path, format!("undoing ply {} of a {}-ply path: {}", path.len(), longest, parent.diff(&now)));
+                        return (states, trans, longest, undos);
+                    }
+                }
+                path.pop();
+            }
+        }
+    }
+    (states, trans, longest, undos)
+}
+
+pub const DEEP_SEEDS: &[(&str, &str)] = &[
+    ("krk", "8/8/8/8/8/k7/8/K6R w - - 0 1"),
+    ("kqk-corner", "7k/8/5K2/8/8/8/8/6Q1 w - - 0 1"),
+    ("castle-base-w", "r3k2r/8/8/8/8/8/8/R3K2R w KQkq - 0 1"),
+    ("promo-race", "n1n5/PPPk4/8/8/8/8/4Kppp/5N1N b - - 0 1"),
+    ("ep-transpose-castle", "r3k2r/1p5p/8/8/8/8/P6P/R3K2R w KQkq - 0 1"),
+    ("kiwipete", "r3k2r/p1ppqpb1/bn2pnp1/3PN3/1p2P3/2N2Q1p/PPPBBPPP/R3K2R w KQkq - 0 1"),
+];
